@@ -28,10 +28,15 @@ Inductive reach (cfg : config) : state -> Prop :=
 Definition exec_of (i : logitem) : list event := match i with LExec e _ => [e] | _ => [] end.
 Definition execs (l : list logitem) : list event := flat_map exec_of l.
 Definition clock_of (i : logitem) : list Z :=
-  match i with LExec _ c => [c] | LStep _ c => [c] | LSched _ _ _ => [] end.
+  match i with LExec _ c => [c] | LStep _ c => [c] | _ => [] end.
 Definition clocks (l : list logitem) : list Z := flat_map clock_of l.
 Definition step_of (i : logitem) : list (Z * Z) := match i with LStep k c => [(k, c)] | _ => [] end.
 Definition steps_of (l : list logitem) : list (Z * Z) := flat_map step_of l.
+
+Definition cancel_of (i : logitem) : list Z := match i with LCancel t => [t] | _ => [] end.
+Definition cancels (l : list logitem) : list Z := flat_map cancel_of l.     (* tags cancelled during l *)
+Definition drop_of (i : logitem) : list Z := match i with LDrop h => [h] | _ => [] end.
+Definition drops (l : list logitem) : list Z := flat_map drop_of l.         (* holders dropped during l *)
 
 (* ticks a+1 .. a+n with their times *)
 Fixpoint tick_list (a : Z) (n : nat) : list (Z * Z) :=
